@@ -23,9 +23,11 @@ LEVEL = "exploration"
 RULE = (
     "A case is one history: an ensemble is constructed (from a molecule, a list of molecules, another ensemble, or atoms + "
     "n_conformers; 1-8 atoms, 0-6 conformers), then 2-7 phases follow. A shape-changing phase applies one of append / extend(list) / "
-    "extend(ensemble) / copy-construct / rebuild from its own conformers / slice, with no iteration in flight. An iteration phase runs "
+    "extend(ensemble / generator / iterator / tuple) / refused append or extend / copy-construct / rebuild from its own conformers / slice / "
+    "store-and-reload (the history continues on the loaded ensemble, which is written through) / conformers taken from a temporary copy, "
+    "with no iteration in flight. An iteration phase runs "
     "1-3 iterator tasks (plain, nested, zip(ens, ens), abandoned-then-restarted) and optionally a mutator task (scale, translate, rotate, "
-    "write through ens[i].coords, dump a conformer, serialise + deserialise) under a seeded interleaving of their next()/operation steps. "
+    "write through ens[i].coords / partial charges, relabel, dump a conformer, dump the whole ensemble as mol2/xyz and read it back, serialise + deserialise) under a seeded interleaving of their next()/operation steps. "
     "Every iterator must see conformer ids 0..n-1 in order; after every step the arrays must be (nc,na,3)/(nc,na)/(nc,) and equal to a "
     "numpy model. distinct_nontrivial counts distinct (task shapes, interleaving) digests of iteration phases with >= 2 tasks or a nested/zip shape."
 )
@@ -39,7 +41,7 @@ REAL_VS_STUB = {"real": ["molli.chem.ensemble.ConformerEnsemble / Conformer", "_
                 "stub": ["caller tasks (generators stepped by the seeded scheduler)"]}
 PROBES = ["iter_plain", "iter_nested", "iter_zip", "iter_restart", "two_or_more_tasks_interleaved", "mutator_between_nexts", "append", "extend_list",
           "extend_ens", "extend_oneshot_iterable", "held_view_checked_after_mutation", "refused_append_or_extend", "atom_relabelled_between_stores", "copy_construct", "rebuild_from_conformers", "slice", "write_through_conformer", "serialise_roundtrip", "conformer_dump",
-          "empty_ensemble_iterated"]
+          "empty_ensemble_iterated", "history_continues_on_reloaded_ensemble", "conformers_of_a_temporary_ensemble", "ensemble_dump_roundtrip"]
 
 TEMPLATES = {
     "neon": (["Ne"], []),
@@ -65,7 +67,7 @@ def gen_plan(r, tier, index):
     phases = []
     for _ in range(r.choice([2, 3, 3, 4, 5, 7])):
         if r.random() < 0.45:
-            phases.append({"type": "op", "op": r.choice(["append", "append", "extend_list", "extend_ens", "extend_gen", "extend_iter", "extend_tuple", "copy", "rebuild", "slice", "append_bad", "extend_bad"]),
+            phases.append({"type": "op", "op": r.choice(["append", "append", "extend_list", "extend_ens", "extend_gen", "extend_iter", "extend_tuple", "copy", "rebuild", "slice", "append_bad", "extend_bad", "reload", "reload", "temp_views"]),
                            "n": r.choice([1, 1, 2, 3]), "cseed": r.randrange(1 << 30)})
         else:
             nt = r.choice([1, 1, 2, 2, 3])
@@ -73,7 +75,7 @@ def gen_plan(r, tier, index):
             mut = []
             if r.random() < 0.5:
                 for _ in range(r.choice([1, 2, 4])):
-                    mut.append({"op": r.choice(["scale", "translate", "translate2", "rotate", "invert", "center_atom", "write", "write_elem", "write_charge", "relabel", "dump", "serialise", "serialise"]),
+                    mut.append({"op": r.choice(["scale", "translate", "translate2", "rotate", "invert", "center_atom", "write", "write_elem", "write_charge", "relabel", "dump", "ens_dump", "serialise", "serialise"]),
                                 "a": r.randrange(1 << 16)})
             phases.append({"type": "iter", "tasks": tasks, "mutator": mut, "sched_seed": r.randrange(1 << 30),
                            "strategy": r.choice(["random", "random", "round_robin", "sticky"])})
@@ -301,6 +303,47 @@ def _run_plan(plan, trace=False):
                         continue
                     res.stats["probe:rebuild_from_conformers"] += 1
                     ens = ml.ConformerEnsemble([ml.Molecule(c) for c in ens[:]])
+                elif op == "reload":
+                    # the ensemble is stored and loaded again (what a ConformerLibrary does); the history goes on with the
+                    # loaded object: it must be as much an ensemble as the one that was stored
+                    res.stats["probe:history_continues_on_reloaded_ensemble"] += 1
+                    blob = msgpack.dumps(_serialize_ens_v2(ens), use_single_float=True)
+                    ens = _deserialize_ens_v2(msgpack.loads(blob, use_list=False))
+                    if tuple(ens.coords.shape) != tuple(mc.shape) or not np.allclose(ens.coords, mc, rtol=1e-5, atol=1e-4, equal_nan=True):
+                        viol("serialised-coordinates-differ", f"reload: shape {ens.coords.shape} vs {mc.shape} or coordinates changed beyond float32 precision")
+                    mc = np.array(ens.coords, dtype=float, copy=True)
+                    if mc.shape[0] and na:
+                        # a loaded ensemble is written through like any other
+                        i = ph["cseed"] % mc.shape[0]
+                        q = np.round(np.linspace(-0.25, 0.25, na), 4)
+                        ens[i].atomic_charges = q
+                        if not np.allclose(ens.atomic_charges[i], q):
+                            viol("charge-write-not-visible", f"reload: partial charges written through ens[{i}] of a loaded ensemble are not in the ensemble")
+                        new = np.round(mc[i] + 0.125, 4)
+                        ens[i].coords = new
+                        mc[i] = new
+                elif op == "temp_views":
+                    # conformers obtained from an ensemble nobody else holds on to (list(build()), a slice of a temporary):
+                    # they are full molecule views and keep working
+                    if mc.shape[0] == 0:
+                        continue
+                    res.stats["probe:conformers_of_a_temporary_ensemble"] += 1
+                    how = ph["cseed"] % 3
+                    if how == 0:
+                        views = list(ml.ConformerEnsemble(ens))
+                    elif how == 1:
+                        views = ml.ConformerEnsemble(ens)[:]
+                    else:
+                        views = [ml.ConformerEnsemble(ens)[i] for i in range(mc.shape[0])]
+                    for i, v_ in enumerate(views):
+                        if not np.allclose(v_.coords, mc[i], equal_nan=True):
+                            viol("coordinates-differ-from-model", f"temp_views: conformer {i} of a temporary copy shows other coordinates than row {i}")
+                        v_.dumps_xyz()
+                        v_.coords = mc[i] + 1.0
+                        if not np.allclose(v_.coords, mc[i] + 1.0, equal_nan=True):
+                            viol("write-not-visible-through-second-view", f"temp_views: a write through conformer {i} of a temporary copy is not read back")
+                    if how != 2 and len(views) > 1 and not np.allclose(views[0].coords, mc[0] + 1.0, equal_nan=True):
+                        viol("write-through-conformer-changed-another-row", "temp_views: writing through later conformers of a temporary copy changed conformer 0")
                 elif op == "slice":
                     res.stats["probe:slice"] += 1
                     nc = mc.shape[0]
@@ -313,7 +356,7 @@ def _run_plan(plan, trace=False):
                     for c in sl:
                         if not np.allclose(c.coords, mc[c._conf_id], equal_nan=True):
                             viol("slice-not-a-view-of-its-row", f"ens[{a}:{b}] conformer {c._conf_id} does not show row {c._conf_id}")
-                if op in ("copy", "rebuild"):
+                if op in ("copy", "rebuild", "reload"):
                     # every ensemble object of the history is recognisable by its atom labels
                     serial[0] += 1
                     for j_, a_ in enumerate(ens.atoms):
@@ -573,6 +616,24 @@ def _mutate(mo, st, res, viol, na, ser, deser, msgpack):
         except Exception as e:  # noqa: BLE001
             viol("conformer-dump-fails", f"ens[{i}].dumps_* raised {e!r}")
         res.stats["probe:conformer_dump"] += 1
+    elif op == "ens_dump":
+        # the ensemble writes all its conformers (the writer iterates over the ensemble - possibly while a caller does)
+        if nc == 0 or na == 0:
+            return
+        import molli as ml
+
+        try:
+            t1, t2 = ens.dumps_mol2(), ens.dumps_xyz()
+            b1, b2 = ml.ConformerEnsemble.loads_mol2(t1), ml.ConformerEnsemble.loads_xyz(t2)
+        except Exception as e:  # noqa: BLE001
+            viol("ensemble-dump-fails", f"ens.dumps_mol2()/dumps_xyz() and reading them back raised {e!r}")
+        res.stats["probe:ensemble_dump_roundtrip"] += 1
+        for what, b in (("mol2", b1), ("xyz", b2)):
+            if tuple(b.coords.shape) != (nc, na, 3):
+                viol("ensemble-dump-wrong-shape", f"{what} text of the ensemble reads back as {b.coords.shape}, expected {(nc, na, 3)}")
+            if not np.allclose(b.coords, mc, rtol=0, atol=2e-4, equal_nan=True):
+                bad = [i for i in range(nc) if not np.allclose(b.coords[i], mc[i], rtol=0, atol=2e-4, equal_nan=True)]
+                viol("ensemble-dump-wrong-coordinates", f"{what} text of the ensemble: conformers {bad} read back with other coordinates than rows {bad}")
     elif op == "serialise":
         try:
             back = deser(msgpack.loads(msgpack.dumps(ser(ens), use_single_float=True), use_list=False))
